@@ -588,6 +588,9 @@ def check_refusals_propagate(run: Run, m, rule: str, modules=("func_adl.type_bas
                     continue
                 reraises = _always_raises(h.body)
                 enumerated = SWALLOWING_HANDLERS.get((fi.module.name, fi.name))
+                if enumerated is None and fi.module.name == "func_adl.util_ast" and any(isinstance(c_, ast.Call) and ast.unparse(c_.func).split(".")[-1] == "_parse_source_for_lambda" for st_ in t.body for c_ in ast.walk(st_)):
+                    # the same attempt under another name (the construct is known by what it guards, not by what it is called)
+                    enumerated = SWALLOWING_HANDLERS[("func_adl.util_ast", "safe_parse_wrapper")]
                 if reraises:
                     # a conversion: what is raised instead must itself be a designed refusal type
                     conv = [r_ for r_ in ast.walk(ast.Module(body=h.body, type_ignores=[])) if isinstance(r_, ast.Raise) and r_.exc is not None]
